@@ -73,7 +73,9 @@ func (f *c16Fix) check(tok *c16Token, q *c16Req) []c16Viol {
 		add("admin-reach", "a %s-role token started an AOF rewrite (rw.begin +%d)", tok.Role, n)
 	}
 	snap := c16HookDelta(hb, ha, "snap.begin")
-	legit := c16HookDelta(hb, ha, "op.VImportCommit.saved") + c16HookDelta(hb, ha, "op.VDeleteIndex.applied")
+	// snapshots that data-plane operations take as part of their own durability (import
+	// commit, index drop, compression) are not administration
+	legit := c16HookDelta(hb, ha, "op.VImportCommit.saved") + c16HookDelta(hb, ha, "op.VDeleteIndex.applied") + c16HookDelta(hb, ha, "op.VCompress.rebuilt")
 	if snap > legit {
 		add("admin-reach", "a %s-role token triggered a snapshot (snap.begin +%d, of which %d belong to import-commit / index-drop)", tok.Role, snap, legit)
 	}
